@@ -162,6 +162,18 @@ def run(prop: str, tier: str, extra=None) -> int:
         # long simulations (13 000 ticks, write-outs in progress most of the time) through the real priority policy, observed sparsely:
         # tick-count-dependent behaviour of the pools only shows in runs of this length
         traces += long_runs(4 if tier == "quick" else 48, common.seed() + SEED_OFFSET[prop])
+    if prop == "C04":
+        # whole simulations: random VALID configurations with the real generator (tick rates up to 100000, where a container's memory moves
+        # by 0.2 MB a tick; sub-GB pools; every policy) observed sparsely, and scripted contention under the priority policy with and
+        # without overcommit (suspensions while the pool reports its memory)
+        from . import driver_sim, driver_sched
+        sim = driver_sim.gen_traces(120 if tier == "quick" else 3000, common.seed() + 404, frac_uncontended=0.0)
+        sim += driver_sched.gen_traces(96 if tier == "quick" else 2400, common.seed() + 405, policies=["priority", "overbook"],
+                                       flavours=(("preempt", 0.4), ("herd", 0.3), ("mixed", 0.3)))
+        for tr in sim:
+            for e in tr:
+                e["tid"] += 2 * 10**7
+        traces += sim
     if prop == "C02":
         # whole simulations (every shipped policy, scripted DAG workloads whose pipeline objects the caller keeps): the operator states
         # during the run and as the caller finds them after run_simulator has returned
